@@ -2,7 +2,9 @@
 
 A frame probe (number of live interpreter frames between the harness and the user callback / loop
 body, and the number of those that execute defer.py code) is sampled inside every user callback of a
-chain of n Deferreds and inside every iteration of a generator / coroutine loop over n Deferreds.
+chain of n Deferreds and inside every iteration of a generator / coroutine loop over n Deferreds;
+in addition a profile hook records, at every call of a defer.py function during the run, the number
+of live defer.py frames (so recursion between twisted's own functions is seen where no user code runs).
 The probe profile for n links must be the one for 2 links: a recursive implementation adds frames
 per link and is refuted at n = 3.  The solver contributes the case split over (n, order, mode, kind)
 only; every path is a concrete run of the real code.
@@ -20,14 +22,18 @@ ENCODED = ["twisted.internet.defer:Deferred._runCallbacks", "twisted.internet.de
            "twisted.internet.defer:_cancellableInlineCallbacks", "twisted.internet.defer:Deferred.__iter__"]
 BOUNDS = {"quick": {"n": 40}, "thorough": {"n": 150}}
 B = {}
-BOUNDS_TEXT = ("chain length / number of awaits 2 <= n <= N (N = 40 quick, 150 thorough); both build orders; "
+BOUNDS_TEXT = ("chain length / number of awaits 2 <= n <= N (N = 40 quick, 150 thorough); four firing orders of the "
+               "chain's Deferreds (ascending, descending, links innermost-first with the last Deferred last, "
+               "middle-out); "
                "all-success, all-failure and last-fails result modes; callback chain, inlineCallbacks loop, "
                "coroutine loop (first awaited Deferred pre-fired or fired later)")
 OUTSIDE = ["n above the bound (the property text goes to 10^5) and the actual RecursionError: only "
            "'frame depth at n equals frame depth at 2' is decided, for each n in the bound",
            "the solver only drives the case split over (n, order, mode, kind); each path is one concrete run",
            "chains built through chainDeferred / paused Deferreds / callbacks added while running"]
-ASSUMPTIONS = ["sys._getframe/f_back report the interpreter's real frame stack under CrossHair's tracer "
+ASSUMPTIONS = ["sys.setprofile call events are delivered for defer.py functions under CrossHair's sys.monitoring "
+               "tracer as in the plain interpreter (validated by the mutants)",
+               "sys._getframe/f_back report the interpreter's real frame stack under CrossHair's tracer "
                "(the same probe is used in the plain-interpreter replay)"]
 EXPLANATION = ("frame-depth probe inside every user callback / loop iteration of the real Deferred chain, "
                "inlineCallbacks and coroutine machinery; profile for n links must equal the one for 2 links")
@@ -50,11 +56,59 @@ def _probe(base):
     return (total, indefer)
 
 
+def _measured(fn, base):
+    """run fn() with a profile hook that, at every call of a function defined in defer.py, counts
+    the live defer.py frames above the harness; returns (fn(), maximum seen).  This sees recursion
+    inside twisted's internals even where no user callback runs."""
+    mx = [0]
+
+    def prof(frame, event, arg):
+        if event == "call" and frame.f_code.co_filename.endswith("defer.py"):
+            d = 0
+            f = frame
+            while f is not None and f is not base:
+                if f.f_code.co_filename.endswith("defer.py"):
+                    if f.f_code.co_name == "__del__":
+                        return      # DebugInfo.__del__: run by the garbage collector at arbitrary points
+                    d += 1
+                f = f.f_back
+            if d > mx[0]:
+                mx[0] = d
+    old = sys.getprofile()
+    sys.setprofile(prof)
+    try:
+        r = fn()
+    finally:
+        sys.setprofile(old)
+    return r, mx[0]
+
+
+def _fire_order(n, order):
+    """order in which the n Deferreds of the chain are fired: 0 ascending (outermost first),
+    1 descending (innermost first: every returned Deferred already has its final result),
+    2 links innermost-first, the last Deferred last (n-2, n-3, .., 0, n-1: every returned Deferred is
+    already waiting on the next one), 3 middle-out (m, m-1, m+1, m-2, ..)"""
+    if order == 0:
+        return list(range(n))
+    if order == 1:
+        return list(range(n - 1, -1, -1))
+    if order == 2:
+        return list(range(n - 2, -1, -1)) + [n - 1]
+    m = n // 2
+    out = [m]
+    for j in range(1, n):
+        if m - j >= 0:
+            out.append(m - j)
+        if m + j < n:
+            out.append(m + j)
+    return out
+
+
 def _consume(d):
     d.addErrback(lambda f: None)
 
 
-def _chain(n, outer_first, mode, base):
+def _chain(n, order, mode, base):
     """ds[i]'s first callback returns ds[i+1]; a second callback on every ds[i] samples the depth.
     mode 0: all succeed; 1: every link fails and the *errback* returns the next Deferred;
     2: links succeed, the innermost one fails.  Returns (depths, final) where final is what a last
@@ -75,8 +129,7 @@ def _chain(n, outer_first, mode, base):
         ds[i].addBoth(sample)
     ds[0].addCallbacks(lambda r: final.append(("ok", r)), lambda f: final.append(("err", f.value)))
     excs = [_Err(i) for i in range(n)]
-    idx = list(range(n)) if outer_first else list(range(n - 1, -1, -1))
-    for i in idx:
+    for i in _fire_order(n, order):
         if mode == 1 or (mode == 2 and i == n - 1):
             ds[i].errback(excs[i])
         else:
@@ -171,22 +224,27 @@ def _nsplit(n, hi):
     return hi
 
 
-def chain_depth(n: int, outer_first: bool, mode: int) -> bool:
+def chain_depth(n: int, order: int, mode: int) -> bool:
     """
-    pre: 2 <= n <= B['n'] and 0 <= mode <= 2
+    pre: 2 <= n <= B['n'] and 0 <= mode <= 2 and 0 <= order <= 3
     post: _
     """
     n = _nsplit(n, B['n'])
     mode = 0 if mode == 0 else (1 if mode == 1 else 2)
-    outer_first = True if outer_first else False
+    order = 0 if order == 0 else (1 if order == 1 else (2 if order == 2 else 3))
     base = sys._getframe(0)
-    d2, ok2 = _chain(2, outer_first, mode, base)
-    dn, okn = _chain(n, outer_first, mode, base)
+    # reference: the shortest chain in which this firing order already pauses and chains
+    # (middle-out fires 2 links as [1, 0], which is plain descending; with 4 it is [2, 1, 3, 0])
+    ref = 4 if order == 3 else 2
+    (d2, ok2), max2 = _measured(lambda: _chain(ref, order, mode, base), base)
+    (dn, okn), maxn = _measured(lambda: _chain(n, order, mode, base), base)
     cover()
     if not (ok2 and okn):
         return False
     if len(dn) != n:
         return False
+    if maxn > max2:
+        return False        # defer.py frames stacked somewhere inside the machinery grow with n
     return _same_profile(dn, d2)
 
 
@@ -202,10 +260,12 @@ def loop_depth(n: int, first_later: bool, mode: int, coro: bool) -> bool:
     base = sys._getframe(0)
     # mode 2: the last await raises out of the loop, so a run of length r has r - 1 samples
     ref = 3 if mode == 2 else 2
-    dref, okref = _loop(ref, first_later, mode, coro, base)
-    dn, okn = _loop(n, first_later, mode, coro, base)
+    (dref, okref), maxref = _measured(lambda: _loop(ref, first_later, mode, coro, base), base)
+    (dn, okn), maxn = _measured(lambda: _loop(n, first_later, mode, coro, base), base)
     cover()
     if not (okref and okn):
+        return False
+    if maxn > maxref:
         return False
     if len(dn) != (n - 1 if mode == 2 else n):
         return False
@@ -213,9 +273,9 @@ def loop_depth(n: int, first_later: bool, mode: int, coro: bool) -> bool:
 
 
 HARNESSES = [
-    H(chain_depth, shards=[("mode == %d" % m,) for m in range(3)], timeout={"quick": 60, "thorough": 600}),
+    H(chain_depth, shards=[("mode == %d" % m, "order == %d" % o) for m in range(3) for o in range(4)], timeout={"quick": 60, "thorough": 600}),
     H(loop_depth, shards=[("mode == %d" % m, "coro == %s" % c) for m in range(3) for c in (False, True)],
       timeout={"quick": 60, "thorough": 600}),
 ]
-VECTORS = {"chain_depth": [(2, True, 0), (7, False, 1), (12, True, 2), (5, True, 1)],
+VECTORS = {"chain_depth": [(2, 0, 0), (7, 1, 1), (12, 0, 2), (5, 0, 1), (9, 2, 0), (6, 2, 1), (8, 3, 2), (3, 3, 0)],
            "loop_depth": [(2, False, 0, False), (9, True, 1, True), (4, True, 2, False), (12, False, 2, True)]}
